@@ -231,6 +231,29 @@ def run(ctx):
             else:
                 r.ok("%s: %s depends only on the parameter" % (init.short, norm(n.ast)))
     if n7 == 0:
+        # the store may sit in a private helper that the constructor hands the parameter to
+        for c in q.calls(init):
+            if isinstance(c.func, ast.Attribute) and isinstance(c.func.value, ast.Name) and c.func.value.id == "self" and c.func.attr in methods and c.args and isinstance(c.args[0], ast.Name) and c.args[0].id in iprm:
+                h = methods[c.func.attr]
+                hp = [a for a in h.params if a != "self"]
+                hcfg = ctx.cfg(h)
+                for n in hcfg.nodes:
+                    if n.kind == "stmt" and isinstance(n.ast, ast.Assign) and any(is_self_attr(t) and t.attr in throttle_fields for t in n.ast.targets) and isinstance(n.ast.value, ast.Name) and hp and n.ast.value.id == hp[0]:
+                        n7 += 1
+                        pname = c.args[0].id
+                        foreign = []
+                        for cn in icfg.nodes_of(c):
+                            for e in icfg.nodes:
+                                if e.kind in ("T", "F") and icfg.dominates(e.id, cn.id) and e.ast is not None and (q.names_in(e.ast) - {pname}):
+                                    foreign.append(("" if e.kind == "T" else "not ") + norm(e.ast))
+                        for e in hcfg.nodes:
+                            if e.kind in ("T", "F") and hcfg.dominates(e.id, n.id) and e.ast is not None and (q.names_in(e.ast) - {hp[0]}):
+                                foreign.append(("" if e.kind == "T" else "not ") + norm(e.ast))
+                        if foreign:
+                            r.fail(init, c, norm(c) + " under " + foreign[0], "the constructor keeps the configured minimum interval only when %s" % " and ".join(foreign))
+                        else:
+                            r.ok("%s: %s stores the parameter, depending only on it" % (init.short, norm(c.func)))
+    if n7 == 0:
         r.fail(init, init.node, "throttle parameter not stored", "the constructor never stores its minimum-interval parameter in %s" % sorted(throttle_fields))
 
     # ---------------------------------------------------------------- R9
